@@ -20,7 +20,7 @@ fn lg(l: &Log, s: String) {
 
 #[derive(Clone, Copy, Debug, PartialEq)]
 struct Model {
-    /// 0 pair, 1 ring of 3, 2 star of 3 around a hub, 3 NDL-built network with a cluster
+    /// 0 pair, 1 ring of 3 whose links are connected with one shared channel instance, 2 star of 3 around a hub, 3 NDL-built network with a cluster
     topo: u8,
     jitter: bool,
     restart: bool,
@@ -137,9 +137,12 @@ fn run(model: Model, seed: u64) -> Result<String, String> {
                 for n in ["a", "b", "c"] {
                     sim.node(n, mk(&log));
                 }
-                sim.gate("a", "ab").connect(sim.gate("b", "ba"), ch());
-                sim.gate("b", "bc").connect(sim.gate("c", "cb"), ch());
-                sim.gate("c", "ca").connect(sim.gate("a", "ac"), ch());
+                // one channel instance handed to all three connects (the caller's instance ends up
+                // on one direction of every link, by the roles in the call)
+                let shared = ch();
+                sim.gate("a", "ab").connect(sim.gate("b", "ba"), shared.clone());
+                sim.gate("b", "bc").connect(sim.gate("c", "cb"), shared.clone());
+                sim.gate("c", "ca").connect(sim.gate("a", "ac"), shared);
             }
             2 => {
                 for n in ["hub", "hub.a", "hub.b", "c"] {
